@@ -27,43 +27,57 @@ TOT = ["_ges_rentenv_beitr_midijob_sum_arbeitnehmer_arbeitgeber_m", "_arbeitsl_v
 
 
 def sweep_job(job):
-    date, ost, kinder, alter, seed = job
+    """One vectorised run per (date, east/west): for every branch (number of children under 25 in
+    0..5, age 22 / 40) a full wage sweep; returns one event per branch."""
+    date, ost, seed, step = job
     rnd = random.Random(seed)
     params, functions = gs.env(date)
     sv = params["sozialv_beitr"]
-    # statutory boundaries of the date (parameters of the environment; their resolution by date is C07)
-    probe = gs.build_population([{"p_id": 0, "hh_id": 0, "alter": alter, "wohnort_ost": ost}], date)
+    probe = gs.build_population([{"p_id": 0, "hh_id": 0, "alter": 40, "wohnort_ost": ost}], date)
     b = gs.compute(probe, date, targets=["minijob_grenze", "_ges_krankenv_beitr_bemess_grenze_m", "_ges_rentenv_beitr_bemess_grenze_m", "ges_krankenv_beitr_arbeitnehmer_m"])
     mini = float(b["minijob_grenze"].iloc[0])
     capkv = float(b["_ges_krankenv_beitr_bemess_grenze_m"].iloc[0])
     caprv = float(b["_ges_rentenv_beitr_bemess_grenze_m"].iloc[0])
     midi = float(sv["geringfügige_eink_grenzen_m"]["midijob"])
-    ws = set(np.arange(0.0, max(caprv, capkv) * 1.25, 25.0 if len(str(seed)) else 25.0).tolist())
+    ws = set(np.arange(0.0, max(caprv, capkv) * 1.25, step).tolist())
     for t in (mini, midi, capkv, caprv):
         ws |= {t, t - 0.01, t + 0.01, t - 1.0, t + 1.0, round(t / 2, 2)}
-    ws |= {rnd.uniform(0, caprv * 1.2) for _ in range(20)}
+    ws |= {round(rnd.uniform(0, caprv * 1.2), 2) for _ in range(20)}
     ws = sorted(w for w in ws if w >= 0)
-    P = [{"p_id": i, "hh_id": i, "alter": alter, "bruttolohn_m": float(w), "wohnort_ost": ost, "ges_pflegev_hat_kinder": kinder, "arbeitsstunden_w": 38.0} for i, w in enumerate(ws)]
+    branches = [(k, a) for k in (0, 1, 2, 3, 5) for a in (22, 40)]
+    P = []
+    pid = 0
+    for (k, a) in branches:
+        for w in ws:
+            P.append({"p_id": pid, "hh_id": pid, "alter": a, "bruttolohn_m": float(w), "wohnort_ost": ost, "ges_pflegev_hat_kinder": k > 0, "arbeitsstunden_w": 38.0})
+            pid += 1
     df = gs.build_population(P, date)
-    have = [c for c in AN + AG + TOT + ["geringfügig_beschäftigt", "in_gleitzone"] if c in functions or True]
-    meta = {"date": date, "ost": ost, "kinder": kinder, "alter": alter, "mini": mini, "midi": midi, "capkv": capkv, "caprv": caprv, "points": len(ws)}
+    kcol = np.repeat([k for k, a in branches], len(ws)).astype(np.int64)
+    extra = {}
+    if "ges_pflegev_anz_kinder_bis_24" in functions or True:
+        df["ges_pflegev_anz_kinder_bis_24"] = kcol      # supplied: the number of children under 25 (normally a pointer aggregate)
+    metas, events = [], []
     try:
         res = gs.compute(df, date, targets=AN + AG + TOT + ["geringfügig_beschäftigt", "in_gleitzone"], rounding=True)
     except Exception as e:  # noqa: BLE001
-        meta["error"] = f"{type(e).__name__}: {str(e)[:200]}"
-        return None, meta
-    pts = []
-    for i, w in enumerate(ws):
-        pts.append({
-            "w": dec(float(w)),
-            "an": [dec(float(res[c].iloc[i])) for c in AN],
-            "ag": [dec(float(res[c].iloc[i])) for c in AG],
-            "tot": [dec(float(res[c].iloc[i])) for c in TOT],
-            "gering": bool(res["geringfügig_beschäftigt"].iloc[i]),
-            "gleit": bool(res["in_gleitzone"].iloc[i]),
-        })
-    ev = {"branch": f"{date}|ost={ost}|kinder={kinder}|alter={alter}", "mini": dec(mini), "midi": dec(midi), "cap": [dec(caprv), dec(caprv), dec(capkv), dec(capkv)], "pts": pts}
-    return ev, meta
+        return [], [{"date": date, "ost": ost, "error": f"{type(e).__name__}: {str(e)[:200]}"}]
+    n = len(ws)
+    for bi, (k, a) in enumerate(branches):
+        sl = slice(bi * n, (bi + 1) * n)
+        pts = []
+        sub = res.iloc[sl]
+        for i, w in enumerate(ws):
+            pts.append({
+                "w": dec(float(w)),
+                "an": [dec(float(sub[c].iloc[i])) for c in AN],
+                "ag": [dec(float(sub[c].iloc[i])) for c in AG],
+                "tot": [dec(float(sub[c].iloc[i])) for c in TOT],
+                "gering": bool(sub["geringfügig_beschäftigt"].iloc[i]),
+                "gleit": bool(sub["in_gleitzone"].iloc[i]),
+            })
+        events.append({"branch": f"{date}|ost={ost}|kinder={k}|alter={a}", "mini": dec(mini), "midi": dec(midi), "cap": [dec(caprv), dec(caprv), dec(capkv), dec(capkv)], "pts": pts})
+        metas.append({"date": date, "ost": ost, "kinder": k, "alter": a, "mini": mini, "midi": midi, "capkv": capkv, "caprv": caprv, "points": n})
+    return events, metas
 
 
 def change_dates(lo):
@@ -99,23 +113,20 @@ def run(tier):
     dates = change_dates("2015-01-01" if quick else "2003-04-01")
     if quick:
         dates = sorted(set(dates[-4:]) | set(rnd.sample(dates[:-4], min(4, len(dates) - 4))) | {"2015-01-01"})
-    jobs = []
-    for d in dates:
-        branches = [(False, True, 40), (True, False, 40), (False, False, 22), (True, True, 30)]
-        if quick:
-            branches = rnd.sample(branches, 2)
-        for ost, kinder, alter in branches:
-            jobs.append((d, ost, kinder, alter, rnd.randrange(1 << 30)))
+    jobs = [(d, ost, rnd.randrange(1 << 30), 50.0 if quick else 20.0) for d in dates for ost in ((False, True) if not quick else (rnd.random() < 0.5,))]
     outs = pool_map(sweep_job, jobs)
     tjobs, metas = [], []
-    for k, (ev, meta) in enumerate(outs):
-        if ev is None:
-            chk.violation(f"C19|raised|date={meta['date']}|{meta['error'][:50]}", "the wage sweep raised", meta)
-            continue
-        tf = chk.work / f"contrib_{k}.json"
-        tlc.write_json(tf, [ev])
-        tjobs.append((str(tf), str(chk.work / f"contrib_{k}.out.json"), str(chk.work)))
-        metas.append(meta)
+    k = 0
+    for events, ms in outs:
+        for ev, meta in zip(events, ms):
+            tf = chk.work / f"contrib_{k}.json"
+            tlc.write_json(tf, [ev])
+            tjobs.append((str(tf), str(chk.work / f"contrib_{k}.out.json"), str(chk.work)))
+            metas.append(meta)
+            k += 1
+        for m in ms:
+            if "error" in m:
+                chk.violation(f"C19|raised|date={m['date']}|{m['error'][:50]}", "the wage sweep raised", m)
     res = pool_map(_judge_one, tjobs)
     seen = set()
     npts = 0
@@ -136,7 +147,7 @@ def run(tier):
         chk.sample(metas[0])
         chk.sample(metas[-1])
     chk.cov["rule"] = (
-        "per change date of the contribution parameters and branch (east/west, children, age): one vectorised run over ~600 single-person households with wages on a 25-EUR grid up to 1.25 x the pension ceiling plus every statutory boundary "
+        "per change date of the contribution parameters and east/west: one vectorised run with, for each branch (number of children under 25 in {0,1,2,3,5} supplied as data, age 22/40), single-person households with wages on a 50-EUR (thorough 20-EUR) grid up to 1.25 x the pension ceiling plus every statutory boundary "
         "(mini-job threshold, upper zone boundary, both assessment ceilings) -1, -0.01, 0, +0.01, +1 and 20 seeded wages; distinct_nontrivial = distinct (date, branch) sweeps"
     )
     chk.assumptions += ["boundaries and ceilings are read from the environment of the date (their resolution is C07)", "NoJump uses slope bound 1 (a contribution never rises faster than the wage)", "regular employees: not self-employed, not privately insured, no pension"]
@@ -145,7 +156,8 @@ def run(tier):
 
 def replay(path):
     case = json.load(open(path))["case"]
-    ev, meta = sweep_job((case["date"], case["ost"], case["kinder"], case["alter"], 1))
+    evs, metas = sweep_job((case["date"], case["ost"], 1, 50.0))
+    ev = [e for e, m in zip(evs, metas) if m["kinder"] == case["kinder"] and m["alter"] == case["alter"]][0]
     chk = Check("C19", "quick", LEVEL)
     tf = chk.work / "r.json"
     tlc.write_json(tf, [ev])
